@@ -110,7 +110,7 @@ func (x *fx) rootContract() *FuncContract {
 	return x.e.rootFC
 }
 
-func (x *fx) staticCall(ci ssa.CallInstruction, fn *ssa.Function, args []Term, free []Term) []Term {
+func (x *fx) staticCall(ci ssa.CallInstruction, fn *ssa.Function, args []Term, free []Term) (libResults []Term) {
 	e := x.e
 	defer x.lockCall(fn, ci)
 	if root := x.rootContract(); root != nil && x.top {
@@ -157,6 +157,17 @@ func (x *fx) staticCall(ci ssa.CallInstruction, fn *ssa.Function, args []Term, f
 	key := FuncKey(fn)
 	inModule := fn.Pkg != nil && strings.HasPrefix(fn.Pkg.Pkg.Path(), ModulePath)
 	if !inModule {
+		// errors made by library code other than the script engine are plain: their Error() is total
+		defer func() {
+			if fn.Pkg != nil && strings.Contains(fn.Pkg.Pkg.Path(), "dop251/goja") {
+				return
+			}
+			for i := 0; i < sig.Results().Len() && i < len(libResults); i++ {
+				if types.Identical(sig.Results().At(i).Type(), types.Universe.Lookup("error").Type()) {
+					e.assume(fmt.Sprintf("(or ((_ is VNil) %s) (plainerr %s))", libResults[i], libResults[i]))
+				}
+			}
+		}()
 		ek := externKey(fn)
 		if fc := e.P.Contracts.Funcs[ek]; fc != nil {
 			var ptypes []types.Type
@@ -166,7 +177,8 @@ func (x *fx) staticCall(ci ssa.CallInstruction, fn *ssa.Function, args []Term, f
 			for i := 0; i < sig.Params().Len(); i++ {
 				ptypes = append(ptypes, sig.Params().At(i).Type())
 			}
-			return x.contractCall(fc, ek, fc.Params, ptypes, args, sig.Results(), nil, ci)
+			libResults = x.contractCall(fc, ek, fc.Params, ptypes, args, sig.Results(), nil, ci)
+			return libResults
 		}
 		if defaultPureExtern(fn) {
 			e.trusted["library function "+fn.String()+" has no effect on the program's heap (default for package "+fn.Pkg.Pkg.Path()+", no explicit stub)"] = true
@@ -174,10 +186,12 @@ func (x *fx) staticCall(ci ssa.CallInstruction, fn *ssa.Function, args []Term, f
 				// does not return
 				x.curReach = "false"
 			}
-			return x.unknownCall("external "+fn.String(), sig.Results(), newEffects())
+			libResults = x.unknownCall("external "+fn.String(), sig.Results(), newEffects())
+			return libResults
 		}
 		// code outside Comcast/sheens is never inlined: without a stub it is an unknown call
-		return x.unknownCall("external "+fn.String(), sig.Results(), &Effects{All: true, Why: "external function without stub: " + fn.String()})
+		libResults = x.unknownCall("external "+fn.String(), sig.Results(), &Effects{All: true, Why: "external function without stub: " + fn.String()})
+		return libResults
 	}
 	fc := e.P.Contracts.Funcs[key]
 	useContract := fc != nil && !fc.Inline
